@@ -21,7 +21,8 @@ def rand_val(rng, name: str, kind: str) -> Fraction:
     if kind == "zero":
         return Fraction(0)
     if name == "ignored_defence":
-        return Fraction(rng.randint(0, 800), 8)
+        u = rng.random()             # the ends of the legal range are values of their own (all defence ignored / none)
+        return Fraction(100) if u < 0.12 else Fraction(0) if u < 0.2 else Fraction(rng.randint(0, 800), 8)
     if name == "final_damage_multiplier":
         return Fraction(rng.randint(-400, 1600), 8)
     if kind == "sparse" and rng.random() < 0.6:
